@@ -122,7 +122,7 @@ func (st *state) exec(op string) (res string) {
 		return astFacts()
 	case "seq":
 		return replaySeq(op)
-	case "trace", "cachelen":
+	case "trace", "traceU", "cachelen":
 		// an observed history of the real code (session tier): the line IS the implementation's behaviour,
 		// the specification judges it
 		return "accept"
